@@ -1,0 +1,8 @@
+//go:build !verif
+// +build !verif
+
+package decimal
+
+func verifGet(z *dec) {}
+
+func verifPut(x *dec) {}
